@@ -17,6 +17,9 @@ import dead
 import rec
 import hom
 import step
+import rb
+import idx2
+import fin
 import engine as _engine
 
 
@@ -38,6 +41,7 @@ def _c11_rest(ctx):
     sib.rule_finish_siblings(ctx)
     rec.rule_recognisers(ctx)
     scratch_rule(ctx)
+    fin.rule_fin_c11(ctx)
 
 
 def _c04(ctx):
@@ -117,7 +121,7 @@ scratch_rule = _filtered(step.rule_scratch, _keep_scratch)
 
 PROPS = {
     "C01": {
-        "rules": [idx.rule_idx_c01, mpt.rule_mpt_c01, lazy.rule_lazy_preserve, step_rule, scratch_rule],
+        "rules": [idx.rule_idx_c01, mpt.rule_mpt_c01, lazy.rule_lazy_preserve, step_rule, scratch_rule, idx2.rule_idx2_network_c01],
         "explanation": "R-IDX: index-space qualifier inference (U original unknown, P permuted position, O observation row, ...) over "
                        "the solution path of all four solvers (AdjEnvelope::solve_*, Envelope::set, AdjCholDec::solve, AdjGSO/AdjSVD::solve, "
                        "SVD::solve/min_subset_x): no integer variable or API slot receives two different index spaces. R-MPT: CFG "
@@ -142,7 +146,7 @@ PROPS = {
                        "The algebraic identities of the generalised inverse are not decided.",
     },
     "C09": {
-        "rules": [hom.rule_hom, hom.rule_hom_selector],
+        "rules": [hom.rule_hom, hom.rule_hom_selector, idx2.rule_idx2_network_c09, fin.rule_fin_c09],
         "explanation": "R-HOM: a dimensional analysis in which the unit is the a priori reference deviation s (weights and v'Pv have degree 2, "
                        "solver cofactors -2, m0 a priori / a posteriori / m_0() degree 1, residuals, adjusted values, quantiles 0; the source table "
                        "sa/tables/hom.json gives one reason per entry). An abstract interpretation over the CFGs (degree plus the exponents of m_0() and "
@@ -172,14 +176,14 @@ PROPS = {
                        "Equality of results with the reduced input is not decided.",
     },
     "C16": {
-        "rules": [idx.rule_idx_c16, mpt.rule_mpt_c16, step_rule, scratch_rule],
+        "rules": [idx.rule_idx_c16, mpt.rule_mpt_c16, step_rule, scratch_rule, idx2.rule_idx2_sparse],
         "explanation": "R-IDX over SparseMatrixOrdering/ReverseCuthillMcKee/Envelope::set (perm: P->U, invp: U->P, graph nodes U, "
                        "envelope rows P); R-MPT: inverse_permutaion() follows algorithm() on every path of SparseMatrixOrdering::reset, "
                        "the ordering precedes Envelope::set, cholDec precedes solve. Numerical equality with dense LDL' is not decided.",
     },
     "C20": {
         "rules": [idx.rule_idx_c20, sib.rule_badreg_signalled, sib.rule_error_counters_consumed, sib.rule_nullspace_catch,
-                  lazy.rule_lazy_cascade, lazy.rule_lazy_rethrow, step_rule, scratch_rule],
+                  lazy.rule_lazy_cascade, lazy.rule_lazy_rethrow, step_rule, scratch_rule, fin.rule_fin_c20],
         "explanation": "R-IDX on the four lindep implementations (the index handed to the factor / permutation / singular-value "
                        "store is in the space that store expects); R-ERR: every solver can signal an unresolvable regularisation and "
                        "LocalNetwork::null_space() handles exactly Exception::BadRegularization, rethrows everything else, and removes "
@@ -203,7 +207,7 @@ PROPS = {
                        "R-SIB: every handler allocates the x index of a point before its y index, so results do not depend on which observation touches a point first. The other equivalences (translation, rotation of the circle, permutation, renaming, units) relate different runs and are not decided.",
     },
     "C12": {
-        "rules": [esc.rule_esc_adjxml, esc.rule_str2xml, fsm2.rule_xsd_adjxml, esc.rule_ysign, lin.rule_unit, dead.rule_dead_local, mpt.rule_mpt_c12, step_rule],
+        "rules": [esc.rule_esc_adjxml, esc.rule_str2xml, fsm2.rule_xsd_adjxml, esc.rule_ysign, lin.rule_unit, dead.rule_dead_local, mpt.rule_mpt_c12, step_rule, rb.rule_rb, idx2.rule_idx2_network_c12],
         "explanation": "R-ESC: three-valued taint analysis (clean / sanitised / tainted, field-based, function summaries) - no PointID, "
                        "description, extern value or exception message reaches a markup sink of LocalNetworkXML, its observation visitor, "
                        "XMLerror, the HTML and SVG writers unsanitised; the sanitiser str2xml maps < > & \" ' to the right entities; the "
@@ -238,7 +242,7 @@ PROPS = {
     },
     "C19": {
         "rules": [tab.rule_g3_visitors, lazy.rule_lazy_chain, lazy.rule_lazy_adj, tab.rule_algorithms, fsm2.rule_dataparser,
-                  esc.rule_esc_g3, pair.rule_newdelete, dead.rule_dead_g3, step_rule, scratch_rule, tab.rule_who_depends],
+                  esc.rule_esc_g3, pair.rule_newdelete, dead.rule_dead_g3, step_rule, scratch_rule, tab.rule_who_depends, fin.rule_fin_c19],
         "explanation": "R-VIS V2 every g3 visitor covers all concrete g3 observation classes; R-LAZY stage chain of g3::Model and "
                        "typestate of Adj; R-TAB T1 algorithm names; R-FSM DataParser automaton (no silent error, absorbing error state, "
                        "depth discipline, init() role table verified against its body); R-ESC g3 writers; R-PAIR P2. R-DEAD for the parameter-status chains of g3. Adjusted "
